@@ -136,7 +136,7 @@ func digestProblems(f string, p *dec.Package, st *digStats) []problem {
 		}
 		// .MTREE: .PKGINFO first, then one line per payload entry
 		type ent struct {
-			kind, link string
+			kind, link  string
 			mode, mtime int64
 			data        []byte
 		}
